@@ -33,6 +33,7 @@ type vfHistArgs struct {
 	Variants       string
 	GCMonitor      bool
 	Prop           string // the property this run decides ("c03", "c18", "c13")
+	PosSweep       bool   // C02 thorough: reopen after EVERY prefix of a short history (n+1 runs of an n-op history)
 }
 
 // vfKeysForServed generates keys whose reference bucket is served by cfg.
@@ -110,6 +111,32 @@ func vfHistories(env *vfc.Env, prefix string, extra func(c *vfHistCase, sut *vfS
 					c.Ops[i].Rev = 0
 				}
 			}
+		}
+		if a.PosSweep {
+			// the same history cut at every position, each prefix followed by a
+			// shutdown + reopen once per index-file subset
+			full := c.Ops
+			for pos := 0; pos <= len(full); pos++ {
+				pid := fmt.Sprintf("%s@%d", id, pos)
+				pc := &vfHistCase{Cfg: a.Cfg, Keys: c.Keys}
+				pc.Ops = append(append([]model.Op{}, full[:pos]...), model.Op{K: "restart", Rm: "", Variants: a.Variants})
+				res.Begin(pid, pc)
+				sut, err := vfOpenSUT(a.Cfg, filepath.Join(env.Work, id), res)
+				if err != nil {
+					res.Violate(pid, prefix+":open-error", err.Error(), pc)
+					break
+				}
+				run := model.NewRunner(sut, ref.NewRefMap(a.Cfg.CheckVHash), res, pid, model.Options{Prefix: prefix, Replay: pc})
+				ok := run.Run(pc.Ops)
+				sut.Destroy()
+				res.Event("position_sweep_runs", 1)
+				if !ok {
+					break
+				}
+			}
+			res.Seen(fmt.Sprintf("position-sweep/ops=%d", len(full)))
+			res.Event("histories", 1)
+			continue
 		}
 		res.Begin(id, c)
 		vfInstallGroups(c.Groups, a.Cfg)
